@@ -23,6 +23,9 @@
 typedef HashMap<Tracked, Tracked> TMap;
 typedef HashSet<Tracked> TSet;
 typedef PoolMap<Tracked, NoCopy> TPool;
+// serials are logged through ser(): anything that is not a serial handed out in this execution (garbage read through a
+// stale pointer) becomes -9 so that the trace stays within TLC's 32-bit integers
+static long ser(long s) { return s > 0 && s < trk_next ? s : -9; }
 enum { K_MAP = 0, K_SET = 1, K_POOL = 2 };
 static const char* kindName[3] = {"hashmap", "hashset", "poolmap"};
 
@@ -46,7 +49,7 @@ static void createVar(int i, int kind, long cap)
   else if(kind == K_SET) V[i].s = cap < 0 ? new TSet : new TSet((usize)cap);
   else V[i].p = cap < 0 ? new TPool : new TPool((usize)cap);
 }
-void drv_init(int, char**) { V[1].m = V[2].m = 0; V[1].s = V[2].s = 0; V[1].p = V[2].p = 0; trk_reset_registry(); }
+void drv_init(int, char**) { g_op_timeout = 8; V[1].m = V[2].m = 0; V[1].s = V[2].s = 0; V[1].p = V[2].p = 0; trk_reset_registry(); }
 void drv_fini() { destroyVar(1); destroyVar(2); nkept = 0; }
 void drv_reset()
 {
@@ -70,21 +73,21 @@ static void keepMap(const TMap::Iterator& it, TMap& c)
   if(nkept >= KEPT_MAX || it == c.end()) return;
   for(int k = 0; k < nkept; ++k) if(kept[k].kind == K_MAP && kept[k].mi == it) return;
   const Tracked& t = *it;
-  kept[nkept].kind = K_MAP; kept[nkept].mi = it; kept[nkept].serial = t.serial; kept[nkept].addr = &t; ++nkept;
+  kept[nkept].kind = K_MAP; kept[nkept].mi = it; kept[nkept].serial = ser(t.serial); kept[nkept].addr = &t; ++nkept;
 }
 static void keepSet(const TSet::Iterator& it, TSet& c)
 {
   if(nkept >= KEPT_MAX || it == c.end()) return;
   for(int k = 0; k < nkept; ++k) if(kept[k].kind == K_SET && kept[k].si == it) return;
   const Tracked& t = *it;
-  kept[nkept].kind = K_SET; kept[nkept].si = it; kept[nkept].serial = t.serial; kept[nkept].addr = &t; ++nkept;
+  kept[nkept].kind = K_SET; kept[nkept].si = it; kept[nkept].serial = ser(t.serial); kept[nkept].addr = &t; ++nkept;
 }
 static void keepPool(const TPool::Iterator& it, TPool& c)
 {
   if(nkept >= KEPT_MAX || it == c.end()) return;
   for(int k = 0; k < nkept; ++k) if(kept[k].kind == K_POOL && kept[k].pi == it) return;
   const NoCopy& t = *it;
-  kept[nkept].kind = K_POOL; kept[nkept].pi = it; kept[nkept].serial = t.serial; kept[nkept].addr = &t; ++nkept;
+  kept[nkept].kind = K_POOL; kept[nkept].pi = it; kept[nkept].serial = ser(t.serial); kept[nkept].addr = &t; ++nkept;
 }
 
 // ---- projection -----------------------------------------------------------------------------------------------
@@ -103,13 +106,13 @@ static void projectVar(int i)
   fputc('[', g_out);
   if(V[i].kind == K_MAP)
     for(TMap::Iterator it = V[i].m->begin(), end = V[i].m->end(); it != end && cnt < bound; ++it, ++cnt)
-    { const Tracked& t = *it; emitEntry(cnt, it.key().value, t.value, t.serial, &t); }
+    { const Tracked& t = *it; emitEntry(cnt, it.key().value, t.value, ser(t.serial), &t); }
   else if(V[i].kind == K_SET)
     for(TSet::Iterator it = V[i].s->begin(), end = V[i].s->end(); it != end && cnt < bound; ++it, ++cnt)
-    { const Tracked& t = *it; emitEntry(cnt, t.value, t.value, t.serial, &t); }
+    { const Tracked& t = *it; emitEntry(cnt, t.value, t.value, ser(t.serial), &t); }
   else
     for(TPool::Iterator it = V[i].p->begin(), end = V[i].p->end(); it != end && cnt < bound; ++it, ++cnt)
-    { const NoCopy& t = *it; emitEntry(cnt, it.key().value, t.value, t.serial, &t); }
+    { const NoCopy& t = *it; emitEntry(cnt, it.key().value, t.value, ser(t.serial), &t); }
   fputc(']', g_out);
 }
 static void backwardVar(int i)
@@ -119,17 +122,17 @@ static void backwardVar(int i)
   if(V[i].kind == K_MAP)
   {
     TMap::Iterator it = V[i].m->end(), begin = V[i].m->begin();
-    while(it != begin && cnt < bound) { --it; fprintf(g_out, cnt ? ",%ld" : "%ld", (*it).serial); ++cnt; }
+    while(it != begin && cnt < bound) { --it; fprintf(g_out, cnt ? ",%ld" : "%ld", ser((*it).serial)); ++cnt; }
   }
   else if(V[i].kind == K_SET)
   {
     TSet::Iterator it = V[i].s->end(), begin = V[i].s->begin();
-    while(it != begin && cnt < bound) { --it; fprintf(g_out, cnt ? ",%ld" : "%ld", (*it).serial); ++cnt; }
+    while(it != begin && cnt < bound) { --it; fprintf(g_out, cnt ? ",%ld" : "%ld", ser((*it).serial)); ++cnt; }
   }
   else
   {
     TPool::Iterator it = V[i].p->end(), begin = V[i].p->begin();
-    while(it != begin && cnt < bound) { --it; fprintf(g_out, cnt ? ",%ld" : "%ld", (*it).serial); ++cnt; }
+    while(it != begin && cnt < bound) { --it; fprintf(g_out, cnt ? ",%ld" : "%ld", ser((*it).serial)); ++cnt; }
   }
   fputc(']', g_out);
 }
@@ -157,9 +160,9 @@ static void observe(const char* op, int i, long k, long v, long p, const char* k
     for(int y = 0; y < nlive; ++y) if(liveSerial[y] == kept[x].serial) { alive = 1; break; }
     if(!alive) continue;
     long now; const void* a;
-    if(kept[x].kind == K_MAP) { const Tracked& t = *kept[x].mi; now = t.serial; a = &t; }
-    else if(kept[x].kind == K_SET) { const Tracked& t = *kept[x].si; now = t.serial; a = &t; }
-    else { const NoCopy& t = *kept[x].pi; now = t.serial; a = &t; }
+    if(kept[x].kind == K_MAP) { const Tracked& t = *kept[x].mi; now = ser(t.serial); a = &t; }
+    else if(kept[x].kind == K_SET) { const Tracked& t = *kept[x].si; now = ser(t.serial); a = &t; }
+    else { const NoCopy& t = *kept[x].pi; now = ser(t.serial); a = &t; }
     fprintf(g_out, first ? "[%ld,%ld,%d]" : ",[%ld,%ld,%d]", kept[x].serial, now, a == kept[x].addr ? 1 : 0);
     first = 0;
     kept[w++] = kept[x];
@@ -177,9 +180,9 @@ static int kindOf(const char* s)
 }
 
 #define NOP() do { observe("nop", i, k, v, p, "", -2, -2); return; } while(0)
-#define MAPRES(it) ((it) == x.m->end() ? -1 : (*(it)).serial)
-#define SETRES(it) ((it) == x.s->end() ? -1 : (*(it)).serial)
-#define POOLRES(it) ((it) == x.p->end() ? -1 : (*(it)).serial)
+#define MAPRES(it) ((it) == x.m->end() ? -1 : ser((*(it)).serial))
+#define SETRES(it) ((it) == x.s->end() ? -1 : ser((*(it)).serial))
+#define POOLRES(it) ((it) == x.p->end() ? -1 : ser((*(it)).serial))
 
 void drv_apply(const char* op)
 {
@@ -213,7 +216,7 @@ void drv_apply(const char* op)
     if(K == K_MAP)
     {
       Tracked& t = app ? x.m->append(Tracked((int)k), Tracked((int)v)) : x.m->prepend(Tracked((int)k), Tracked((int)v));
-      r = t.serial;
+      r = ser(t.serial);
       keepMap(x.m->find(Tracked((int)k)), *x.m);
     }
     else if(K == K_SET)
@@ -226,7 +229,7 @@ void drv_apply(const char* op)
       usize before = x.p->size();
       NoCopy& t = x.p->append(Tracked((int)k));
       if(x.p->size() != before) t.value = (int)v;       // a new entry: the harness gives it its value
-      r = t.serial;
+      r = ser(t.serial);
       keepPool(x.p->find(Tracked((int)k)), *x.p);
     }
   }
@@ -320,12 +323,12 @@ void drv_apply(const char* op)
   else if(!strcmp(op, "front"))
   {
     if(n == 0) NOP();
-    if(K == K_MAP) r = x.m->front().serial; else if(K == K_SET) r = x.s->front().serial; else r = x.p->front().serial;
+    if(K == K_MAP) r = ser(x.m->front().serial); else if(K == K_SET) r = ser(x.s->front().serial); else r = ser(x.p->front().serial);
   }
   else if(!strcmp(op, "back"))
   {
     if(n == 0) NOP();
-    if(K == K_MAP) r = x.m->back().serial; else if(K == K_SET) r = x.s->back().serial; else r = x.p->back().serial;
+    if(K == K_MAP) r = ser(x.m->back().serial); else if(K == K_SET) r = ser(x.s->back().serial); else r = ser(x.p->back().serial);
   }
   else if(!strcmp(op, "eq"))
   {
@@ -356,7 +359,7 @@ void drv_apply(const char* op)
   else if(!strcmp(op, "appendown"))             // append(key of own entry p, value of own entry k)
   {
     if(K == K_POOL || p < 0 || p >= n || k < 0 || k >= n) NOP();
-    if(K == K_MAP) { Tracked& t = x.m->append(mapAt(*x.m, p).key(), *mapAt(*x.m, k)); r = t.serial; }
+    if(K == K_MAP) { Tracked& t = x.m->append(mapAt(*x.m, p).key(), *mapAt(*x.m, k)); r = ser(t.serial); }
     else x.s->append(*setAt(*x.s, p));
   }
   else if(!strcmp(op, "rmkeyown"))              // remove(key of own entry p)
